@@ -104,6 +104,9 @@ def run_check(prop, tier):
     pid = prop.pid
     seed = int(os.environ.get("VERIF_SEED", "20260930"))
     out_lines = []
+    if C.REPLAYS.exists():
+        for old in C.REPLAYS.glob(f"{pid}-*.json"):
+            old.unlink()
     violations = []      # (kind, replay_path, suffix)
     known_hits = []
     cov = {"checker_cmd": f"cd coq && make -j{C.NCPU} && coqc -Q . EG Props/{pid}.v  # Print Assumptions parsed; then coqc on generated _work/{pid}/cases_*.v (vm_compute)",
